@@ -16,8 +16,9 @@ HANDLED_ELSEWHERE = [
 # the list only groups them and orders the output so that a NEW site is always printed before these (the framework
 # prints at most five replays per run).
 REPORTED = [
-    ("F-chain3", r"panic src/hb/ot_layout_gsubgpos\.rs:(60[0-9]|61[0-9]|62[0-9]) called `Option::unwrap\(\)`",
-     "ChainContext format 3: `coverages.get(index).unwrap()` on a malformed (null/out-of-range) coverage offset"),
+    ("F-coverage-unwrap", r"panic src/hb/(ot_layout_gsubgpos\.rs|ot/layout/GSUB/reverse_chain_single_subst\.rs):\d+ called `Option::unwrap\(\)`",
+     "Context / ChainContext format 3 and ReverseChainSingleSubst: `coverages.get(index).unwrap()` on a malformed "
+     "(null / out-of-range) coverage offset"),
     ("F-attach-i16", r"panic src/hb/ot_layout_gpos_table\.rs:\d+ assertion failed: j < i",
      "attach_chain is i16: a mark more than 32767 glyphs after its base wraps and trips assert!(j < i)"),
     ("F-nfvs", r"panic src/hb/buffer\.rs:\d+ assertion failed: self\.glyph_id <= u32::from\(u16::MAX\)",
@@ -451,6 +452,9 @@ def seed_lines():
         ("text-rendering-tests/TestMORXThirtytwo.ttf", ["w2438:0153", "w250:8000"], "b - - 4 1 - - - 41 mode=plan ser=1"),  # face.rs ascender - descender (fixed)
         ("text-rendering-tests/NotoSerifKannada-Regular.ttf", ["w96924:81", "w93167:52", "w94567:61", "w94766:01", "w93694:01", "w93699:50"],
          f"{plain} caa,ccc ser=1"),                                                                                      # set_digest add_range a > b (fixed)
+        ("rb_custom/NotoSansSinhala.subset1.otf", ["w2476:0013"], f"{plain} dc1,200d,dca,200d,dbb,dd3"),                      # context format 3 coverage unwrap
+        ("rb_custom/Linefont.ttf", ["w59206:40", "w33827:cd", "w53245:ba", "w30462:00", "w41887:a4"], f"{plain} 21f,61"),      # reverse chain coverage unwrap
+        ("in-house/TRAK.ttf", ["w426:01"], "- - - 255 2 - - feff,5b4,200d,3164 41,42,43 ppem=0 ptem=1e9 mode=plan ser=1"),       # serialize pen accumulation (fixed)
         ("in-house/MORXTwentyeight.ttf", ["w2650:fffe"], f"{plain} 41,78,45,79,44,79,79 ser=1"),                           # morx ligature_idx u16 +=
         ("rb_custom/Rasa.subset1.otf", [], "l - - 64 1 - - - abc*65536"),                                                 # quadratic in a run of marks (2 s here, 88 s at 300k)
     ]
